@@ -19,6 +19,10 @@ case = {"iw": w, "apps": [app per stream], "ops": [op ...]}
   "late": L  (optional) the last L applications are not requested at setup; op ["req"] sends the next such request
   op  = ["adv"] one pending reactor call (one _sendPrioritisedData iteration) | ["wu", k, inc] | ["iw", v] | ["mf", v]
       | ["write", k] | ["finish", k] | ["req"]     k = 0: connection window, k >= 1: the k-th stream (id 2k-1)
+      | ["prio", sid]   the peer sends a PRIORITY frame for stream id sid: a live stream, a finished one, or an idle one
+                    (an odd id the client has not opened yet -- browser-style tree pre-building; it may be opened later
+                    by a "req").  Histories with "prio" are checked by the oracle only: the model's scheduler knows
+                    blocked / unblocked and insertion order, not PRIORITY frames
       | ["tpause"] | ["tresume"]   the transport calls pauseProducing() / resumeProducing() on the connection
                     (back-pressure; a tpause while paused is skipped: a second pauseProducing would replace
                     _consumerBlocked and drop what waits behind it)
@@ -340,6 +344,8 @@ def _impl(case) -> str:
             elif op[0] == "req":
                 if late:
                     request(late.pop(0))
+            elif op[0] == "prio":
+                cl.prioritize(op[1], weight=op[2] if len(op) > 2 else 16)
             elif op[0] == "tpause":
                 if not tpaused[0]:
                     tpaused[0] = True
@@ -828,6 +834,28 @@ def _with_backpressure(rng, case):
     return case
 
 
+def _with_prio(rng, case):
+    """PRIORITY frames for live, finished and idle stream ids sprinkled into a history, each followed (sooner or
+    later) by loop iterations while other streams have data queued"""
+    if rng.random() < 0.25:
+        n = len(_apps(case))
+        ops = list(case["ops"])
+        for _ in range(rng.randrange(1, 4)):
+            r = rng.random()
+            if r < 0.5:
+                sid = 2 * n + 1 + 2 * rng.randrange(0, 3)          # idle: not opened (yet)
+            elif r < 0.7 and case.get("late"):
+                sid = 2 * n - 1                                    # a late stream, maybe before its request
+            else:
+                sid = 2 * rng.randrange(1, n + 1) - 1              # live or already finished
+            pos = rng.randrange(0, len(ops) + 1)
+            ops[pos:pos] = [["prio", sid, rng.choice([1, 16, 200])]] + [["adv"]] * rng.randrange(0, 3)
+        if rng.random() < 0.6:
+            ops.append(["drain"])
+        case = {**case, "ops": ops}
+    return case
+
+
 def _with_drains(rng, case):
     """sprinkle intermediate quiescent points into any history"""
     if rng.random() < 0.5:
@@ -851,7 +879,7 @@ def search(rng):
 
 
 def gen(rng, tier):
-    return [_with_backpressure(rng, _with_drains(rng, c)) for c in _gen(rng, tier)]
+    return [_with_prio(rng, _with_backpressure(rng, _with_drains(rng, c))) for c in _gen(rng, tier)]
 
 
 def _gen(rng, tier):
@@ -914,6 +942,11 @@ def corpus():
         # a small response delivered first, then a producer that fills what is left of the connection window
         {"iw": 1 << 24, "apps": [["static", [535]], ["producer", 6500, 20]], "late": 1,
          "ops": [["adv"], ["adv"], ["req"]] + [["adv"]] * 12 + [["wu", 0, 65535]] + [["adv"]] * 4},
+        # PRIORITY for an idle stream id while another stream has data queued; later for a finished one
+        {"iw": 100, "apps": [["static", [300]]],
+         "ops": [["adv"], ["prio", 5, 16], ["adv"], ["wu", 1, 1000], ["drain"], ["prio", 1, 16], ["prio", 7, 200], ["drain"]]},
+        {"iw": 1000, "apps": [["static", [50]], ["manual", [20, 30]]], "late": 1,
+         "ops": [["prio", 3, 16], ["adv"], ["adv"], ["req"], ["write", 2], ["drain"], ["write", 2], ["finish", 2], ["drain"]]},
         # a producer whose writes add up exactly to the window, sent completely, loop parked; the stream-level
         # WINDOW_UPDATE makes it finish from inside resumeProducing without writing
         {"iw": 100, "apps": [["pre", 0, "lazy", 25, 4]], "ops": [["drain"], ["wu", 1, 50], ["drain"]]},
@@ -960,6 +993,8 @@ def to_coq(case):
 
     if any(a[0] == "pre" and a[2] == "pull" for a in _apps(case)):
         return None          # no cooperator in the model: oracle only
+    if any(o[0] == "prio" for o in case["ops"]):
+        return None          # PRIORITY frames are not in the model: oracle only
 
     def app(a):
         if a[0] == "producer":
